@@ -107,6 +107,11 @@ def _pos(n):
     return (getattr(n, "lineno", 0), getattr(n, "col_offset", 0))
 
 
+def _clone(e):
+    """a fresh copy of an expression (nodes may carry parent links: a deep copy would drag the whole module along)"""
+    return ast.parse(ast.unparse(e), mode="eval").body
+
+
 class _Subst(ast.NodeTransformer):
     def __init__(self, name, value):
         self.name, self.value, self.count = name, value, 0
@@ -114,7 +119,7 @@ class _Subst(ast.NodeTransformer):
     def visit_Name(self, n):
         if n.id == self.name and isinstance(n.ctx, ast.Load):
             self.count += 1
-            return ast.copy_location(copy.deepcopy(self.value), n)
+            return ast.copy_location(_clone(self.value), n)
         return n
 
 
@@ -131,31 +136,50 @@ def _suspended_before_use(stmts, v):
             bad[0] = True
         return yielded or any(isinstance(n, SUSP) for n in nodes)
 
+    DEAD = None      # a path that has left the function: it reaches no later use
+
+    def join(*ys):
+        live = [y for y in ys if y is not DEAD]
+        return DEAD if not live else any(live)
+
     def block(body, yielded):
         for st in body:
+            if yielded is DEAD:
+                return DEAD
+            if isinstance(st, (ast.Return, ast.Raise)):
+                expr(getattr(st, "value", None) or getattr(st, "exc", None), yielded)
+                return DEAD
             if isinstance(st, FuncTypes + (ast.ClassDef,)):
                 if any(isinstance(n, ast.Name) and n.id == v for n in ast.walk(st)):
                     bad[0] = True       # read from a nested scope: whenever that runs
                 continue
             if isinstance(st, ast.If):
                 y0 = expr(st.test, yielded)
-                yielded = block(st.body, y0) | block(st.orelse, y0)
+                yielded = join(block(st.body, y0), block(st.orelse, y0))
             elif isinstance(st, (ast.For, ast.AsyncFor, ast.While)):
                 y0 = expr(st.iter if hasattr(st, "iter") else st.test, yielded)
                 y1 = block(st.body, y0)
+                y1 = y0 if y1 is DEAD else y1
                 if hasattr(st, "test"):
                     y1 = expr(st.test, y1)
                 y2 = block(st.body, y1)             # second iteration: what the first one left
-                yielded = block(st.orelse, y0 | y2) | y0 | y2
+                y2 = y1 if y2 is DEAD else y2
+                yo = block(st.orelse, bool(y0) or bool(y2))
+                yielded = bool(y0) or bool(y2) or bool(yo)
             elif isinstance(st, (ast.With, ast.AsyncWith)):
                 for it_ in st.items:
                     yielded = expr(it_.context_expr, yielded)
                 yielded = block(st.body, yielded)
             elif isinstance(st, ast.Try):
                 y1 = block(st.body, yielded)
-                ys = [block(h.body, yielded | y1) for h in st.handlers]
-                y2 = block(st.orelse, y1)
-                yielded = block(st.finalbody, y1 | y2 | any(ys)) | y1 | y2 | any(ys)
+                y1b = bool(yielded) if y1 is DEAD else bool(y1)
+                ys = [block(h.body, bool(yielded) or y1b) for h in st.handlers]
+                y2 = block(st.orelse, y1b) if y1 is not DEAD else DEAD
+                allv = [y1, y2] + ys
+                fin = bool(yielded) or any(bool(y) for y in allv if y is not DEAD)
+                yf = block(st.finalbody, fin) if st.finalbody else fin
+                yielded = DEAD if all(y is DEAD for y in [y1 if y2 is DEAD else y2] + ys) and (y1 is DEAD) else (
+                    DEAD if yf is DEAD else (bool(yf) or fin))
             else:
                 yielded = expr(st, yielded)
         return yielded
